@@ -82,7 +82,7 @@ func evalC05One(q prog.Program) Outcome {
 	}
 	deferred := false
 	for _, st := range append(append([]prog.Step{}, q.Steps...), q.Tail...) {
-		if (st.Op == "faultsync" || st.Op == "faultpushonly") && st.B == 1 {
+		if (st.Op == "faultsync" || st.Op == "faultpushonly") && st.B != 0 {
 			deferred = true
 		}
 	}
@@ -218,9 +218,11 @@ func TestC05(t *testing.T) {
 				st.Op = "faultsync"
 			}
 			st.A, st.C = fp.event, boolInt(fp.lost)
-			// half of the points: the retry is deferred to the program's next
-			// sync of that client, after possibly further edits
-			st.B = int((sel >> uint(k%60)) & 1)
+			// retry mode: 0 immediate (same request again), 1 deferred to the
+			// program's next sync of that client (after possibly further
+			// edits), 2 immediate but push-only
+			// 3 one more edit, then a push-only sync
+			st.B = int((sel >> uint((k%30)*2)) & 3)
 			out, res := runFaulted(q)
 			if out.Fail == nil && st.B == 0 {
 				out.Fail = c05Differs(res, ref)
